@@ -85,12 +85,13 @@ def sign_reply(a, rng, rid, doc, level, prev_rid=None):
     if a["cons"] == "broken":
         case["viol"] = [rng.choice([dict(c="indexShape", at=1), dict(c="calInput", at=0), dict(c="authHash", at=0), dict(c="calShape", at=0)])]
     sig = build_for(case, rng, d, lvl)
-    body = ksi.tlv(0x01, ksi.uint(use_id)) + status_tlv(a, st) + errmsg + b"".join(sig_parts(sig, level))
+    body = ksi.tlv(0x01, ksi.uint(use_id)) + status_tlv(a, st) + errmsg + b"".join(sig_parts(sig, level, permute=(case["nch"] == 2 and rng.random() < 0.4)))
     return envelope(0x0221, (0x0200, 0x0202), [(0x02, body)], a)
 
 
-def sig_parts(s, sub_level=0):
-    """the reply's chains; the SDK adds the requested level to the first level correction itself, so the server transmits it reduced"""
+def sig_parts(s, sub_level=0, permute=False):
+    """the reply's chains; the SDK adds the requested level to the first level correction itself, so the server transmits it reduced.
+    permute: the aggregation chains are listed highest first (the order of the elements in the PDU carries no meaning: the SDK sorts them by index)"""
     import copy
     parts = []
     for k, c in enumerate(s.chains):
@@ -98,6 +99,8 @@ def sig_parts(s, sub_level=0):
         if k == 0 and sub_level:
             links = [copy.copy(l) for l in links]; links[0].corr -= sub_level
         parts.append(ksi.aggr_chain_tlv(c["time"], c["index"], c["inp"], c["alg"], links))
+    if permute:
+        parts.reverse()
     if s.cal:
         parts.append(ksi.cal_chain_tlv(s.cal["pub"], s.cal["aggr"], s.cal["inp"], s.cal["links"]))
     if s.auth:
